@@ -57,3 +57,4 @@ while True:
     work(d3.Setting + 1)
     yield_()
 """, pool=[1.0, 2.0, 3.0, 5.0, 8.0, 13.0])
+raw("D2-invert", "C09", {"kind": "program", "src": {"": HDR + "x = d0.Setting\ndb.Setting = ~x\n"}, "opts": {}})
